@@ -1250,7 +1250,7 @@ func TestVerif_C01_CanaryScan(t *testing.T) {
 		r.Count("workloads", 1)
 		r.Count(fmt.Sprintf("workloads_tx=%v_shamir=%v", vr.tx, vr.shamir), 1)
 		w.v.Close()
-		if r.NViolations() > 60 {
+		if int64(r.NViolations())-r.Get("violations:"+c01ClassUI) > 60 { // the recorded known finding must not cut coverage short
 			break
 		}
 	}
